@@ -28,6 +28,8 @@ type Engine struct {
 	fset      *token.FileSet
 	specs     *SpecSet
 	comps     map[string]string
+	compDeps  map[string][]types.Type
+	compElem  map[string]types.Type // type of the values stored in a heap component (for well-formedness axioms)
 	compOrder []string
 	modCache  map[*ssa.Function]*modSet
 	nonNil    map[string]bool
@@ -73,7 +75,7 @@ func LoadEngine(root string) (*Engine, error) {
 	prog.Build()
 	e := &Engine{
 		root: root, pkgs: pkgs, prog: prog, fset: prog.Fset,
-		allPkgs: map[string]*packages.Package{}, comps: map[string]string{}, modCache: map[*ssa.Function]*modSet{},
+		allPkgs: map[string]*packages.Package{}, comps: map[string]string{}, compDeps: map[string][]types.Type{}, compElem: map[string]types.Type{}, modCache: map[*ssa.Function]*modSet{},
 		nonNil: map[string]bool{}, ranges: map[string]*rangeState{}, uninterp: map[string]ufInfo{},
 		funcByKey: map[string]*ssa.Function{}, implCache: map[string][]types.Type{},
 		constGlob: map[*ssa.Global]*constGlobalInfo{}, cgScanned: map[*ssa.Package]bool{},
@@ -207,8 +209,10 @@ func (e *Engine) inlinable(fn *ssa.Function) bool {
 			return true // generated protobuf getters
 		}
 	}
-	if strings.HasPrefix(pp, "google.golang.org/protobuf/types/known/") && strings.HasPrefix(fn.Name(), "Get") {
-		return true
+	if strings.HasPrefix(pp, "google.golang.org/protobuf/types/known/") {
+		if strings.HasPrefix(fn.Name(), "Get") || fn.Name() == "AsDuration" || (fn.Name() == "New" && strings.HasSuffix(pp, "durationpb")) {
+			return true
+		}
 	}
 	return false
 }
@@ -440,7 +444,7 @@ func (e *Engine) constGlobalVal(c *FnCtx, st *State, key string) Val {
 		}
 		if info.nonNil {
 			c.sc.Decl("cgnn:"+n, "(assert (> "+n+" 0))")
-			e.nonNil[n] = true
+			c.nonNil[n] = true
 		}
 		if len(stores(info)) == 0 && info.value == nil {
 			// never assigned: zero value
